@@ -231,6 +231,10 @@ class Builder:
                 start = 0
             stop = self.build(src_stop, context, gate_context)
             if stop is None:
+                if not isinstance(src, Register):
+                    raise JaqalError(
+                        f"Cannot slice {src_name}: it is not a register"
+                    )
                 stop = src.size
             step = self.build(src_step, context, gate_context)
             if step is None:
